@@ -18,6 +18,8 @@ pub enum Instr {
     ReplOne,
     ReplLim2,
     ReplHost,
+    /// back to unlimited replication through a forward connection
+    ReplUnl,
     /// group_by(x%3) + fold(sum)
     GbSum,
     /// group_by(x%2) + reduce(max)
@@ -106,6 +108,7 @@ fn unary<O: Operator<Out = i64> + 'static>(s: Stream<O>, i: &Instr) -> DS<i64> {
         Instr::ReplOne => erase(s.replication(Replication::One)),
         Instr::ReplLim2 => erase(s.replication(Replication::new_limited(2))),
         Instr::ReplHost => erase(s.replication(Replication::Host)),
+        Instr::ReplUnl => erase(s.replication(Replication::Unlimited)),
         Instr::GbSum => erase(
             s.group_by(|x: &i64| x % 3)
                 .fold(0i64, |a, x| *a += x)
@@ -323,7 +326,7 @@ fn ref_unary(v: Vec<i64>, i: &Instr) -> Vec<i64> {
         Instr::Map => v.into_iter().map(f_map).collect(),
         Instr::Filter => v.into_iter().filter(f_filter).collect(),
         Instr::FlatMap => v.into_iter().flat_map(f_flat).collect(),
-        Instr::Shuffle | Instr::ReplOne | Instr::ReplLim2 | Instr::ReplHost | Instr::PanicAt(..) => v,
+        Instr::Shuffle | Instr::ReplOne | Instr::ReplLim2 | Instr::ReplHost | Instr::ReplUnl | Instr::PanicAt(..) => v,
         Instr::GbSum | Instr::GbFoldAssoc => keyed_agg(&v, 3, |a, b| a + b),
         Instr::GbReduceMax | Instr::GbReduceAssoc | Instr::BcastMax => keyed_agg(&v, 2, |a, b| a.max(b)),
         Instr::Fold | Instr::FoldAssoc | Instr::Reduce | Instr::ReduceAssoc => {
@@ -466,6 +469,7 @@ fn rep_unary(i: &Instr, r: Rep) -> Option<Rep> {
         Instr::ReplOne | Instr::Fold | Instr::FoldAssoc | Instr::Reduce | Instr::ReduceAssoc => Rep::One,
         Instr::ReplLim2 => Rep::Lim2,
         Instr::ReplHost => Rep::Host,
+        Instr::ReplUnl => Rep::Unl,
         Instr::Replay(_, body) => {
             if r != Rep::Unl {
                 return None;
